@@ -156,6 +156,10 @@ type clientConn struct {
 
 	createdTime time.Time
 	lastUseTime time.Time
+
+	// pooled is set once the connection has been handed back after an exchange: only such a
+	// connection can have been closed by the peer while it sat idle
+	pooled bool
 }
 
 var startTimeUnix = time.Now().Unix()
@@ -871,7 +875,8 @@ func (c *HostClient) acquireConn(dialTimeout time.Duration) (cc *clientConn, inP
 
 		select {
 		case <-w.ready:
-			return w.conn, true, w.err
+			// (a waiter is served by a released connection or by one dialled this moment)
+			return w.conn, w.conn == nil || w.conn.pooled, w.err
 		case <-tc.C:
 			return nil, true, errs.ErrNoFreeConns
 		}
@@ -1055,6 +1060,7 @@ var clientConnPool sync.Pool
 func (c *HostClient) releaseConn(cc *clientConn) {
 	verifYield(4)
 	cc.lastUseTime = time.Now()
+	cc.pooled = true
 	if c.MaxConnWaitTimeout <= 0 {
 		c.connsLock.Lock()
 		c.conns = append(c.conns, cc)
